@@ -24,6 +24,7 @@ import (
 	"os"
 	"os/exec"
 	"path/filepath"
+	"regexp"
 	"sort"
 	"strconv"
 	"strings"
@@ -85,13 +86,55 @@ type c08NoSym struct{}
 
 func (c08NoSym) Symbolize(string, plugin.MappingSources, *profile.Profile) error { return nil }
 
-type c08NoObj struct{}
+// c08ProfObj is an object tool scripted by the profile itself: every location with a function is a
+// symbol [address, address+7] of its mapping's binary, and disassembles to two instructions.
+type c08ProfObj struct{ p *profile.Profile }
 
-func (c08NoObj) Open(file string, start, limit, offset uint64, _ string) (plugin.ObjFile, error) {
-	return nil, fmt.Errorf("no object files in this test")
+func (o c08ProfObj) Open(file string, start, limit, offset uint64, _ string) (plugin.ObjFile, error) {
+	for _, m := range o.p.Mapping {
+		if m.File == file && m.File != "" {
+			return c08ProfObjFile{p: o.p, name: file}, nil
+		}
+	}
+	return nil, fmt.Errorf("no such object file %s", file)
 }
-func (c08NoObj) Disasm(string, uint64, uint64, bool) ([]plugin.Inst, error) {
-	return nil, fmt.Errorf("no object files in this test")
+
+func (o c08ProfObj) Disasm(file string, start, end uint64, intel bool) ([]plugin.Inst, error) {
+	var out []plugin.Inst
+	for a := start; a <= end && len(out) < 2; a += 4 {
+		out = append(out, plugin.Inst{Addr: a, Text: fmt.Sprintf("op%d %%r%d", a%7, a%5)})
+	}
+	return out, nil
+}
+
+type c08ProfObjFile struct {
+	p    *profile.Profile
+	name string
+}
+
+func (f c08ProfObjFile) Name() string                              { return f.name }
+func (f c08ProfObjFile) ObjAddr(addr uint64) (uint64, error)       { return addr, nil }
+func (f c08ProfObjFile) BuildID() string                           { return "" }
+func (f c08ProfObjFile) SourceLine(uint64) ([]plugin.Frame, error) { return nil, fmt.Errorf("no source line") }
+func (f c08ProfObjFile) Close() error                              { return nil }
+func (f c08ProfObjFile) Symbols(r *regexp.Regexp, addr uint64) ([]*plugin.Sym, error) {
+	var out []*plugin.Sym
+	seen := map[uint64]bool{}
+	for _, l := range f.p.Location {
+		if l.Mapping == nil || l.Mapping.File != f.name || len(l.Line) == 0 || l.Line[len(l.Line)-1].Function == nil || seen[l.Address] {
+			continue
+		}
+		name := l.Line[len(l.Line)-1].Function.Name
+		if r != nil && !r.MatchString(name) {
+			continue
+		}
+		if addr != 0 && !(l.Address <= addr && addr <= l.Address+7) {
+			continue
+		}
+		seen[l.Address] = true
+		out = append(out, &plugin.Sym{Name: []string{name}, File: f.name, Start: l.Address, End: l.Address + 7})
+	}
+	return out, nil
 }
 
 // ---------- child: compute the payloads of one profile in this (fresh) process ----------
@@ -121,7 +164,7 @@ func c08WebPayloads(p *profile.Profile) (map[string]string, error) {
 		Flagset: &c08Flags{set: map[string]string{"http": "localhost:0", "symbolize": "none", "no_browser": "true"}},
 		Fetch:   c08Fetcher{p.Copy()},
 		Sym:     c08NoSym{},
-		Obj:     c08NoObj{},
+		Obj:     c08ProfObj{p},
 		UI:      c08QuietUI{},
 		HTTPServer: func(a *plugin.HTTPServerArgs) error {
 			handlers = a.Handlers
@@ -297,8 +340,39 @@ func c08WebCompare(c *Ctx, canons []string, procs int) {
 	}
 }
 
+// c08LimitsProfile: MORE matching functions / files than the built-in limits of the web UI (50 entries
+// for /disasm and /source), with many equal weights — which entries survive the cut must not depend on
+// map iteration.
+func c08LimitsProfile(r *Rng) *profile.Profile {
+	p := &profile.Profile{TimeNanos: 1700000000000000000, DurationNanos: 1e9, Period: 1,
+		PeriodType: &profile.ValueType{Type: "cpu", Unit: "nanoseconds"},
+		SampleType: []*profile.ValueType{{Type: "samples", Unit: "count"}},
+		Mapping:    []*profile.Mapping{{ID: 1, Start: 0x400000, Limit: 0x500000, File: "/bin/prog", HasFunctions: true, HasFilenames: true, HasLineNumbers: true}},
+	}
+	n := 60 + r.Intn(30)
+	for i := 0; i < n; i++ {
+		f := &profile.Function{ID: uint64(i + 1), Name: fmt.Sprintf("fn%03d", i), SystemName: fmt.Sprintf("fn%03d", i), Filename: fmt.Sprintf("src/file%03d.go", i), StartLine: 1}
+		p.Function = append(p.Function, f)
+		p.Location = append(p.Location, &profile.Location{ID: uint64(i + 1), Mapping: p.Mapping[0], Address: 0x400000 + uint64(16*(i+1)),
+			Line: []profile.Line{{Function: f, Line: int64(10 + i%3)}}})
+	}
+	for _, i := range perm(r, n) {
+		v := []int64{5, 5, 5, 3, 7}[r.Intn(5)]
+		s := &profile.Sample{Location: []*profile.Location{p.Location[i]}, Value: []int64{v}}
+		if r.Chance(30) {
+			s.Location = append(s.Location, p.Location[r.Intn(n)])
+		}
+		p.Sample = append(p.Sample, s)
+	}
+	return p
+}
+
 func c08WebStream(c *Ctx, r *Rng, n, procs int) {
 	var canons []string
+	for i := 0; i < 2+n/6; i++ {
+		canons = append(canons, Canon(c08LimitsProfile(r)))
+		c.Res.Hit("web-profile:over-the-limits")
+	}
 	for i := 0; i < n; i++ {
 		st := c08Strategies[i%len(c08Strategies)]
 		p := c08GenProfile(r, st)
